@@ -418,6 +418,10 @@ m("minted-table-truncated-on-error", ["C07"], ["MINTED|types|never-shrinks"], TC
   "    fn resolve_type(&mut self, ctx: TypeCtx, ty: &ResolverType) -> TypeResult<TyID> {\n        let before = self.types.len();\n        let t = match self.inner_resolve_type(ctx, ty, &mut HashMap::new()) {\n            Ok(t) => t,\n            Err(e) => {\n                self.types.truncate(before);\n                return Err(e);\n            }\n        };")
 m("twin-minted-find-renamed-locals", ["C07"], "silent", TC,
   "        let mut root = a;\n        while let Some(TyID(next)) = self.types[root].parent {\n            root = next;\n        }", "        let mut top = a;\n        while let Some(TyID(up)) = self.types[top].parent {\n            top = up;\n        }\n        let root = top;")
+m("ambient-label-from-address", ["C16"], ["AMBIENT|IRCodeGen::label|address-as-integer"], IR,
+  "    fn label(&mut self) -> Label {\n        let i = self.counter;\n        self.counter += 1;\n        Label(i)", "    fn label(&mut self) -> Label {\n        self.counter += 1;\n        Label((&self.counter as *const usize as usize) % 100000 + self.counter)")
+m("ambient-pointer-in-message", ["C16"], ["AMBIENT|"], TC,
+  "                        \"`break` only works in loops\"\n", "                        \"`break` only works in loops ({:p})\",\n                        self\n")
 m("bracket-index-no-newline-mode", ["C14"], ["BRACKET-MODE|assignable_index|LeftBracket", "NEWLINE-MODE"], PPA,
   "    let (mut ctx, skip_newlines) = ctx.push_skip_newlines(true);\n\n    let expr =", "    let (mut ctx, skip_newlines) = ctx.push_skip_newlines(ctx.skip_newlines);\n\n    let expr =")
 m("bracket-list-type-no-newline-mode", ["C14"], ["BRACKET-MODE|parse_type|LeftBracket", "NEWLINE-MODE"], PPA,
